@@ -11,7 +11,7 @@ from ..cfg import cfg_of
 from ..model import AnalysisError, FunctionInfo, bind_args
 from ..roles import roles_of
 from ..symb import Translator, Untranslatable, is_zero
-from ..terms import call_name, canon, cmp_normal, const_num, guard_canon, norm_stmt, state_key
+from ..terms import guard_extra, call_name, canon, cmp_normal, const_num, guard_canon, norm_stmt, state_key
 from .common import iter_stores, reaching_assignments, self_attr_of
 
 EXPLANATION = (
@@ -169,7 +169,7 @@ def check(ctx):
     if floop is not None:
         g = guard_canon(prog, opt, floop)
         allowed = {"(0 < OS[uncertainty_handling_level])", "(1 <= OS[uncertainty_handling_level])", "(0 < OPT[noise_final_samples])", "(1 <= OPT[noise_final_samples])"}
-        extra = sorted(x for x in g if x not in allowed)
+        extra = guard_extra(prog, opt, floop, allowed)
         if not any(x in g for x in ("(0 < OS[uncertainty_handling_level])", "(1 <= OS[uncertainty_handling_level])")):
             ctx.fail(opt, floop, "the final re-sampling is not tied to the noisy mode", construct="final sampling without noisy-mode guard")
         if extra:
